@@ -177,7 +177,7 @@ func (s *sim) apply(a *sx.Node) error {
 			}
 			k := [2]int{c, t}
 			switch {
-			case ts.mode == "fail":
+			case ts.isFail():
 				s.n["reply-after-send-failure"]++
 			case ts.mode == "auto" || s.replied[k]:
 				s.n["duplicate"]++
@@ -296,6 +296,8 @@ func cmdsNode(cmds []cspec) *sx.Node {
 			tn := sx.L(sx.I(ts.t))
 			if ts.mode == "auto" {
 				tn.Add(sx.L(sx.A("auto"), sx.I(ts.tag), sx.B(ts.err)))
+			} else if ts.mode == "autofail" {
+				tn.Add(sx.L(sx.A("auto"), sx.I(ts.tag), sx.B(ts.err), sx.A("fail")))
 			} else {
 				tn.Add(sx.A(ts.mode))
 			}
@@ -347,6 +349,10 @@ func genCase(r *rng.R, maxCmds, maxTargets int) fw.Case {
 			switch x := r.N(10); {
 			case x < 2:
 				ts.mode = "fail"
+				if r.P(2, 5) {
+					// delivered and answered, but the send is reported as failed
+					ts.mode, ts.tag, ts.err = "autofail", newTag(), r.P(1, 4)
+				}
 			case x < 4:
 				ts.mode, ts.tag, ts.err = "auto", newTag(), r.P(1, 4)
 			}
@@ -515,6 +521,9 @@ func genLateCase(r *rng.R) fw.Case {
 			switch x := r.N(10); {
 			case x < 4:
 				ts.mode = "fail"
+				if r.P(1, 3) {
+					ts.mode, ts.tag, ts.err = "autofail", newTag(), r.P(1, 4)
+				}
 			case x < 7:
 				ts.mode, ts.tag, ts.err = "auto", newTag(), r.P(1, 4)
 			}
@@ -647,7 +656,7 @@ func genLateCase(r *rng.R) fw.Case {
 func tagsOf(cmds []cspec, s *sim) []string {
 	tags := []string{fmt.Sprintf("cmds=%d", len(cmds))}
 	qs := map[int]bool{}
-	maxT, short, fail, auto, silent, args, autoYield, autoLong := 0, 0, 0, 0, 0, 0, 0, 0
+	maxT, short, fail, auto, silent, args, autoYield, autoLong, autoFail, autoFailOthers := 0, 0, 0, 0, 0, 0, 0, 0, 0, 0
 	for c, cs := range cmds {
 		qs[cs.q] = true
 		if len(cs.targets) > maxT {
@@ -660,6 +669,12 @@ func tagsOf(cmds []cspec, s *sim) []string {
 			switch ts.mode {
 			case "fail":
 				fail++
+			case "autofail":
+				fail++
+				autoFail++
+				if len(cmds) > 1 || len(cs.targets) > 1 {
+					autoFailOthers++
+				}
 			case "auto":
 				auto++
 				if (ts.tag+ts.t)%2 == 1 {
@@ -696,6 +711,14 @@ func tagsOf(cmds []cspec, s *sim) []string {
 	}
 	if autoLong > 0 {
 		tags = append(tags, "reply-inside-send,long-timeout")
+	}
+	if autoFail > 0 {
+		// the class "a reply reaches ProcessResponse while its caller has stopped listening and
+		// the call is still pending" (here: delivered and answered, the send reported as failed)
+		tags = append(tags, "class=reply-in-leave-window", "reply-inside-send,then-send-fails")
+	}
+	if autoFailOthers > 0 {
+		tags = append(tags, "reply-in-leave-window,other-targets-or-commands")
 	}
 	if args > 0 {
 		tags = append(tags, "per-target-arguments")
@@ -766,7 +789,7 @@ func nontrivial(input, obs string) bool {
 			maxT = len(cs.targets)
 		}
 		for _, ts := range cs.targets {
-			if ts.mode == "fail" {
+			if ts.isFail() {
 				fail++
 			}
 			if ts.mode == "ok" && !s.replied[[2]int{c, ts.t}] {
